@@ -1,7 +1,7 @@
 import Qentem.Model.Hash
 import Qentem.Model.HashTable
 import Qentem.Model.HashTableSpec
-import Qentem.Proofs.HashTableRefine
+import Qentem.Proofs.HashTableSentences
 /-!
 C13 — the hash array is an insertion-ordered map under every operation sequence.
 
@@ -71,6 +71,111 @@ theorem reachable_refines_hashChar {V : Type} [Inhabited V] (ops : List (Op V)) 
       (abs s', os) = Spec.run ordChar Spec.empty ops :=
   reachable_refines hashChar ordChar hashChar_ne_zero ops
 
+/-! ### The sentences of the property, for every reachable table
+
+`Op.KeyLevel` = every operation whose meaning mentions neither slot numbers nor the key order
+(Insert, Get / operator[], assignment, Remove, the lookups, Reserve, Expect, Compress, Clear, Reset,
+copy, move).  For those the table is compared with the textbook association list `alStep` and with
+the history function `histStep` ("stored and not removed since; last value stored").  Resize(n),
+RemoveIndex(i), Rename, Sort and operator+= are covered by `reachable_refines` (slot level) and by
+`key_index_agree` / `sort_keeps_lookups` below. -/
+
+/-- *Iteration visits live entries in first-insertion order*: walking the slots `0 .. Size()-1` with
+`GetKey(i)` / `GetValue(i)` and skipping removed slots yields exactly the reference association
+list (a stored key keeps its place, a new key goes to the end, a removed key leaves). -/
+theorem iteration_first_insertion_order {V : Type} [Inhabited V] (H : List Nat → Nat) (ord : Nat → Nat)
+    (hH : ∀ k, H k ≠ 0) (ops : List (Op V)) (hops : ∀ op ∈ ops, op.KeyLevel) :
+    ∃ s' os, run H ord HT.empty ops = some (s', os) ∧
+      (List.range s'.items.size).filterMap (lookupIdx s') = ops.foldl alStep [] := by
+  obtain ⟨s', os, hrun, _, hent⟩ := entries_run ord hH ops (Qentem.HashTable.inv_empty H) hops
+  refine ⟨s', os, hrun, ?_⟩
+  have hent' : entries (absSlots s') = ops.foldl alStep [] := hent
+  rw [← hent']
+  -- iteration by index = the entries of the slot view
+  have hidx : ∀ i, lookupIdx s' i = ((absSlots s')[i]?).join := fun i => by
+    rw [lookupIdx_spec]; rfl
+  have hgen : ∀ (sl : Slots V), (List.range sl.length).filterMap (fun i => (sl[i]?).join) = entries sl := by
+    intro sl
+    induction sl with
+    | nil => rfl
+    | cons o t ih =>
+      rw [List.length_cons, List.range_succ_eq_map, List.filterMap_cons, List.filterMap_map]
+      have : ((fun i => ((o :: t)[i]?).join) ∘ Nat.succ) = fun i => (t[i]?).join := by
+        funext i; simp
+      rw [this, ih]
+      cases o <;> simp [entries]
+  rw [← hgen (absSlots s'), absSlots_length]
+  exact List.filterMap_congr (fun i _ => hidx i)
+
+/-- *A key is found exactly when it was stored and not removed since, and lookup returns the last
+value stored under it*: the result of a lookup after any key-level history is the history function. -/
+theorem lookup_eq_history {V : Type} [Inhabited V] (H : List Nat → Nat) (ord : Nat → Nat)
+    (hH : ∀ k, H k ≠ 0) (ops : List (Op V)) (hops : ∀ op ∈ ops, op.KeyLevel) :
+    ∃ s' os, run H ord HT.empty ops = some (s', os) ∧
+      ∀ k, ∃ r, lookup H s' k = some r ∧ r.map Prod.snd = ops.foldl histStep (fun _ => none) k := by
+  obtain ⟨s', os, hrun, hI', hent⟩ := entries_run ord hH ops (Qentem.HashTable.inv_empty H) hops
+  refine ⟨s', os, hrun, fun k => ⟨_, lookup_spec hI' hH k, ?_⟩⟩
+  have h1 : (Spec.lookup (abs s') k).map Prod.snd = alLookup (entries (absSlots s')) k :=
+    valOf_eq_alLookup (sp := abs s') hI'.keysNodup k
+  have hent' : entries (absSlots s') = ops.foldl alStep [] := hent
+  rw [h1, hent', alLookup_foldl]
+  rfl
+
+theorem found_iff_stored_not_removed {V : Type} [Inhabited V] (H : List Nat → Nat) (ord : Nat → Nat)
+    (hH : ∀ k, H k ≠ 0) (ops : List (Op V)) (hops : ∀ op ∈ ops, op.KeyLevel) :
+    ∃ s' os, run H ord HT.empty ops = some (s', os) ∧
+      ∀ k, (∃ i v, lookup H s' k = some (some (i, v))) ↔ (ops.foldl histStep (fun _ => none) k).isSome := by
+  obtain ⟨s', os, hrun, hl⟩ := lookup_eq_history H ord hH ops hops
+  refine ⟨s', os, hrun, fun k => ?_⟩
+  obtain ⟨r, hr, hv⟩ := hl k
+  rw [← hv, hr]
+  cases r with
+  | none => simp
+  | some p => simp only [Option.map_some, Option.isSome_some, iff_true]; exact ⟨p.1, p.2, rfl⟩
+
+theorem lookup_last_stored {V : Type} [Inhabited V] (H : List Nat → Nat) (ord : Nat → Nat)
+    (hH : ∀ k, H k ≠ 0) (ops : List (Op V)) (hops : ∀ op ∈ ops, op.KeyLevel) :
+    ∃ s' os, run H ord HT.empty ops = some (s', os) ∧
+      ∀ k i v, lookup H s' k = some (some (i, v)) → ops.foldl histStep (fun _ => none) k = some v := by
+  obtain ⟨s', os, hrun, hl⟩ := lookup_eq_history H ord hH ops hops
+  refine ⟨s', os, hrun, fun k i v h => ?_⟩
+  obtain ⟨r, hr, hv⟩ := hl k
+  rw [hr] at h
+  cases h
+  rw [← hv]; rfl
+
+/-- *Key-to-index and index-to-key lookups agree*, in every state satisfying the invariant (hence
+in every reachable state, whatever operations led to it). -/
+theorem key_index_agree {V : Type} {H : List Nat → Nat} (hH : ∀ k, H k ≠ 0) {s : HT V} (hI : Inv H s)
+    (k : List Nat) (i : Nat) (v : V) :
+    lookup H s k = some (some (i, v)) ↔ lookupIdx s i = some (k, v) := by
+  rw [lookup_spec hI hH k, lookupIdx_spec, Option.some.injEq]
+  exact spec_key_index_agree (sp := abs s) hI.keysNodup k i v
+
+/-- *After a Sort every key is still found, with its value* (the rehash is correct). -/
+theorem sort_keeps_lookups {V : Type} {H : List Nat → Nat} (ord : Nat → Nat) (hH : ∀ k, H k ≠ 0) {s : HT V}
+    (hI : Inv H s) (ascend : Bool) :
+    ∃ s', sort ord s ascend = some s' ∧ Inv H s' ∧
+      ∀ k, (Spec.lookup (abs s') k).map Prod.snd = (Spec.lookup (abs s) k).map Prod.snd := by
+  obtain ⟨s', hrun, hI', habs⟩ := sort_spec ord hI ascend
+  refine ⟨s', hrun, hI', fun k => ?_⟩
+  have hp : (entries (abs s').slots).Perm (entries (abs s).slots) := by
+    rw [habs]; exact sort_entries_perm ord (abs s) ascend
+  apply Option.ext
+  intro v
+  have h1 := valOf_eq_some_iff (sp := abs s') hI'.keysNodup (k := k) (v := v)
+  have h2 := valOf_eq_some_iff (sp := abs s) hI.keysNodup (k := k) (v := v)
+  unfold valOf at h1 h2
+  rw [h1, h2]
+  exact hp.mem_iff
+
+/-- *(key order after a sort)* - full-strength statement, open here: it needs "`Memory::Sort` returns
+an ordered array for a strict weak order", which is C15's theorem about `sortSeg`; with it and
+`sort_entries_perm` this is a corollary. -/
+def sort_orders_keys : Prop :=
+  ∀ (V : Type) (H : List Nat → Nat) (ord : Nat → Nat) (s s' : HT V), Inv H s → sort ord s true = some s' →
+    (keysOf (absSlots s')).Pairwise (fun a b => isLess ord b a false = false)
+
 /-! Non-vacuity: a hash function with two values (every key collides at every capacity), a run that
 inserts, removes, re-inserts after growth and looks up; the hypotheses hold and the state is not
 trivial. -/
@@ -84,5 +189,16 @@ example : ((run exH id (HT.empty : HT Nat) exOps).map fun r => (r.1.items.size, 
 example : ∃ s' os, run exH id (HT.empty : HT Nat) exOps = some (s', os) ∧ Inv exH s' :=
   let ⟨s', os, h, hI, _⟩ := reachable_refines exH id (by intro k; unfold exH; omega) exOps
   ⟨s', os, h, hI⟩
+
+/-! Non-vacuity of the sentence theorems: a key-level history (all keys collide under `exH`) with a
+removal and a re-insertion; the history function is not constant. -/
+def exKeyOps : List (Op Nat) :=
+  [.insert [1] 5, .insert [3] 6, .insert [1] 7, .remove [3], .get [5], .assign [3] 9, .compress, .lookup [1]]
+
+example : ∀ op ∈ exKeyOps, op.KeyLevel := by simp [exKeyOps, Op.KeyLevel]
+example : (exKeyOps.foldl histStep (fun _ => none) [1], exKeyOps.foldl histStep (fun _ => none) [3],
+    exKeyOps.foldl histStep (fun _ => none) [5], exKeyOps.foldl histStep (fun _ => none) [2]) =
+    (some 7, some 9, some 0, none) := by decide
+example : exKeyOps.foldl alStep [] = [([1], 7), ([5], 0), ([3], 9)] := by decide
 
 end Qentem.Props.C13
